@@ -25,7 +25,14 @@ type C15Case struct {
 	Decoys  []string `json:"decoys"`   // decoy paths (relative to the selected root) that are present
 	Dirty   bool     `json:"dirty"`    // targets need rewriting (unformatted / misnumbered / stale)
 	Extra   []string `json:"extra_assembly,omitempty"`
+	// RootName is the directory name of the outer CRS root ("" = crs). Names with glob metacharacters come
+	// with a sibling directory that such a pattern would match (crs1), holding a full stale copy of the root.
+	RootName string `json:"root_name,omitempty"`
+	// Upper: the assembly files carry `##!+ i` and an upper-case letter inside a class (format's lint fires)
+	Upper bool `json:"upper,omitempty"`
 }
+
+var c15RootNames = []string{"", "", "", "crs[12]", "crs[!x]", "crs 1", "crs{1}"}
 
 var c15Cmds = []string{"generate", "generate-stdin", "compare", "compare", "format-check", "format-check", "renumber-check", "renumber-check", "version", "completion", "format", "format", "format", "update", "update", "update", "renumber", "renumber", "renumber", "update-copyright", "update-copyright"}
 
@@ -57,6 +64,8 @@ func genC15(t *rapid.T) C15Case {
 			c.Target = rapid.SampledFrom([]string{"932100", "932110-chain1"}).Draw(t, "target")
 		}
 	}
+	c.RootName = rapid.SampledFrom(c15RootNames).Draw(t, "rootname")
+	c.Upper = rapid.IntRange(0, 3).Draw(t, "upper") == 0
 	n := rapid.IntRange(3, 12).Draw(t, "ndecoys")
 	c.Decoys = rapid.Permutation(c15DecoyPool).Draw(t, "decoys")[:n]
 	if openFinding("D18") {
@@ -71,8 +80,15 @@ func genC15(t *rapid.T) C15Case {
 	return c
 }
 
-func c15RootFiles(tag string, dirty bool) cli.Tree {
+func c15RootFiles(tag string, dirty bool, upper ...bool) cli.Tree {
+	up := len(upper) > 0 && upper[0]
 	ra := func(w string) string {
+		if up && dirty {
+			return "##!+   i\n  " + w + tag + "[A-Z]x\n##!>   assemble\n" + w + "2\n##!<\n\n\n"
+		}
+		if up {
+			return raHeader + "\n##!+ i\n" + w + tag + "[A-Z]x\n##!> assemble\n  " + w + "2\n##!<\n"
+		}
 		if dirty {
 			return "  " + w + tag + "\n##!>   assemble\n" + w + "2\n##!<\n\n\n"
 		}
@@ -131,15 +147,32 @@ func checkC15(c C15Case) Outcome {
 	defer sb.Close()
 	// S/: outside/, home/, crs/ (outer root) with crs/vendor/inner (inner root)
 	tree := cli.Tree{"outside/tests/regression/tests/R/932100.yaml": decoyContent("tests/"), "outside/rules/REQUEST-932-X.conf": decoyContent("x"), "outside/crs-setup.conf.example": decoyContent("x"), "outside/notes.conf": decoyContent("x"), "outside/932100.ra": decoyContent("regex-assembly/"), "outside/932100.yaml": decoyContent("tests/"), "home/": "", "outside/regex-assembly-not/x.ra": "x\n"}
-	for p, v := range c15RootFiles("_outer", c.Dirty) {
-		tree["crs/"+p] = v
+	rootName := c.RootName
+	if rootName == "" {
+		rootName = "crs"
 	}
-	for p, v := range c15RootFiles("_inner", c.Dirty) {
-		tree["crs/vendor/inner/"+p] = v
+	if rootName != "crs" {
+		lab = append(lab, "root-name-with-metacharacter")
+		out.Labels = lab
+		// the directory a glob built from the root's path would match instead of (or besides) the root
+		for p, v := range c15RootFiles("_sibling", true, c.Upper) {
+			tree["crs1/"+p] = v
+			tree["crs1/vendor/inner/"+p] = v
+		}
 	}
-	sel := "crs"
+	if c.Upper {
+		lab = append(lab, "ignore-case-flag-with-upper-case-class")
+		out.Labels = lab
+	}
+	for p, v := range c15RootFiles("_outer", c.Dirty, c.Upper) {
+		tree[rootName+"/"+p] = v
+	}
+	for p, v := range c15RootFiles("_inner", c.Dirty, c.Upper) {
+		tree[rootName+"/vendor/inner/"+p] = v
+	}
+	sel := rootName
 	if c.RootSel == "inner" {
-		sel = "crs/vendor/inner"
+		sel = rootName + "/vendor/inner"
 	}
 	for _, d := range c.Decoys {
 		if strings.HasSuffix(d, "/") {
